@@ -118,7 +118,9 @@ func callbackCloseScripts(rng *rand.Rand, n1, n2 int) [][]Stim {
 		[]Stim{rejecting(1), all(1, 2, false, 0), pubS(0), pubS(0), pubS(0), recvS(0), recvS(1)},
 		[]Stim{all(0, 0, true, 1), all(0, 0, true, 1), all(0, 0, true, 2), pubS(0), pubS(0), advanceS, pubS(0)})
 	// exhaustive short sequences for the single-subscriber configurations
-	for _, cfg := range []Stim{all(0, 0, true, 1), all(1, 0, true, 2), all(1, 3, true, 1), all(2, 4, true, 1), rejecting(1)} {
+	filterCloses := sub(1, 1, 2, 0, 2, false, false) // even filter whose predicate closes the subscriber when it rejects
+	filterCloses.FCl = true
+	for _, cfg := range []Stim{all(0, 0, true, 1), all(1, 0, true, 2), all(1, 3, true, 1), all(2, 4, true, 1), rejecting(1), filterCloses} {
 		for _, seq := range sequences([]Stim{pubS(0), recvS(0), advanceS}, n1) {
 			out = append(out, append([]Stim{cfg}, seq...))
 		}
@@ -161,6 +163,10 @@ func genC06(tier string, rng *rand.Rand) []Script {
 	// another subscriber's slow filter must not eat this subscriber's timeout
 	for _, st := range slowFilterScripts() {
 		add("slow-filter", st)
+	}
+	// a subscriber closes itself from inside its filter / OnFiltered while Publish is walking the subscribers
+	for _, st := range reentrantCloseScripts(map[string]int{"quick": 3, "thorough": 4}[tier]) {
+		add("reentrant-close", st)
 	}
 	// subscribers closed, new ones created, older ones keep receiving
 	for _, st := range churnScripts(map[string]int{"quick": 4, "thorough": 6}[tier]) {
@@ -415,6 +421,27 @@ func genC10(tier string, rng *rand.Rand) []Script {
 	return out
 }
 
+// reentrantCloseScripts: a subscriber unsubscribes itself from inside the library's Publish - from its filter
+// predicate or from its OnFiltered callback - when it sees a message it rejects (the "one-shot subscriber").
+// Publish must return, the others must get every message exactly once, the closing subscriber's channel is closed.
+func reentrantCloseScripts(n int) [][]Stim {
+	var out [][]Stim
+	for variant := 0; variant < 2; variant++ {
+		closing := sub(1, 1, 2, 0, 2, variant == 0, false) // even filter; 60s timeout
+		if variant == 0 {
+			closing.CbF = 1 // OnFiltered closes the subscriber
+		} else {
+			closing.FCl = true // the predicate itself does
+		}
+		other := sub(2, 1, 1, 0, 2, false, false) // accepts everything, observed visits
+		for _, seq := range sequences([]Stim{pubS(0), recvS(0), recvS(1)}, n) {
+			out = append(out, append([]Stim{closing, other}, seq...))
+			out = append(out, append([]Stim{other, closing, other}, seq...))
+		}
+	}
+	return out
+}
+
 // slowFilterScripts: s0's filter takes 100 ms (longer than s1's whole 60 ms timeout) and rejects or accepts;
 // s1 has room in its buffer (or is drained between the publishes).  Whichever of the two the Range visits first,
 // s1's own timeout starts when ITS delivery starts: its message must arrive, OnTimeout must not fire early.
@@ -467,7 +494,7 @@ func scopeText(prop, tier string, n int) string {
 		if tier == "thorough" {
 			return fmt.Sprintf("%d scripts: every Publish/TryReceive sequence of length 8 for one subscriber (buffer 0,1,2 x no filter/even filter), every sequence of length 6 over {Publish,TryReceive s0,TryReceive s1} for 4 two-subscriber configurations, 3000 random scripts (2-4 subscribers, buffers 0-3, six filter kinds, callbacks present or nil, late subscriber); each followed by a drain", n)
 		}
-		return fmt.Sprintf("%d scripts: every Publish/TryReceive sequence of length 5 for one subscriber (buffer 0,1,2 x no filter / even filter+OnFiltered+OnTimeout), a 12-subscriber matrix of filter x OnFiltered x OnTimeout, 8 slow-filter scripts (100ms filter next to a 60ms timeout), the option order of every Subscribe a seeded permutation, churn (every sequence of length %d over {Subscribe, close oldest, close newest, Publish} after two subscribers), every sequence of length 4 over {Publish,TryReceive s0,TryReceive s1} for 4 two-subscriber configurations, 120 random scripts (2-4 subscribers, buffers 0-3, six filter kinds, callbacks present or nil, late subscriber); each followed by a drain", n, 4)
+		return fmt.Sprintf("%d scripts: every Publish/TryReceive sequence of length 5 for one subscriber (buffer 0,1,2 x no filter / even filter+OnFiltered+OnTimeout), a 12-subscriber matrix of filter x OnFiltered x OnTimeout, 8 slow-filter scripts (100ms filter next to a 60ms timeout), reentrant-close scripts (a filter predicate / OnFiltered callback closes its own subscriber inside Publish), the option order of every Subscribe a seeded permutation, churn (every sequence of length %d over {Subscribe, close oldest, close newest, Publish} after two subscribers), every sequence of length 4 over {Publish,TryReceive s0,TryReceive s1} for 4 two-subscriber configurations, 120 random scripts (2-4 subscribers, buffers 0-3, six filter kinds, callbacks present or nil, late subscriber); each followed by a drain", n, 4)
 	case "C15":
 		return fmt.Sprintf("%d scripts: the two F11 witnesses, 60ms-vs-60s and 60ms-vs-160ms timeout pairs, zero and negative (-1s) timeouts (3 fixed scripts + every sequence of length %d over {Publish,TryReceive,Advance} each), Publish x12 into full buffers; 25 option orders of one subscriber; another subscriber's 100ms filter next to a 60ms timeout; the option order of EVERY Subscribe is a seeded permutation; callbacks that call Subscriber.Close / Publication.Close from inside OnTimeout / OnFiltered; every sequence of length %d over {Publish,TryReceive,Advance} for one subscriber with a 60ms timeout and both callbacks (buffer 0,1); every sequence of length %d over {Publish,TryReceive s0,TryReceive s1,Advance} for 3 two-subscriber configurations (s0 60ms, s1 60s); seeded random scripts (2-4 subscribers, buffers 0-2, timeouts 60ms/160ms/60s/0/-1s, callbacks present or nil); each followed by Advance + drain + a settled marker", n, map[string]int{"quick": 3, "thorough": 4}[tier], map[string]int{"quick": 4, "thorough": 5}[tier], map[string]int{"quick": 3, "thorough": 4}[tier])
 	case "C10":
